@@ -441,7 +441,22 @@ func Emit(out hx.Out, cases []Case, dist hx.Counter) {
 				}
 			}
 		}
-		lines = append(lines, fmt.Sprintf("mkCase %s %s %s %s %s %s %s %s %s", status, hx.B(c.ImportPanic != ""), hx.List(pop), hx.List(diffs), hx.List(e2), hx.List(probes), hx.List(sched), snapCoq(c.Snap[0]), snapCoq(c.Snap[1])))
+		// order dependence of the import: (variant, store | "probe" | "import", what)
+		var order []string
+		for _, or := range c.Orders {
+			if or.ImportPanic != "" {
+				order = append(order, hx.Tuple(hx.Str(or.Variant), hx.Str("import"), hx.Str("panic")))
+			}
+			for _, d := range or.Diffs {
+				order = append(order, hx.Tuple(hx.Str(or.Variant), hx.Str(d.Store), hx.Str(d.Kind+":"+d.Store+"/"+d.Class)))
+			}
+			for _, p := range or.Probes {
+				if p.A != p.B {
+					order = append(order, hx.Tuple(hx.Str(or.Variant), hx.Str("probe"), hx.Str(p.Name)))
+				}
+			}
+		}
+		lines = append(lines, fmt.Sprintf("mkCase %s %s %s %s %s %s %s %s %s %s", status, hx.B(c.ImportPanic != ""), hx.List(pop), hx.List(diffs), hx.List(e2), hx.List(probes), hx.List(sched), hx.List(order), snapCoq(c.Snap[0]), snapCoq(c.Snap[1])))
 	}
 	out.WriteFile("cases.txt", strings.Join(lines, "\n")+"\n")
 	out.WriteFile("pre.v", "From Coq Require Import ZArith String List.\nImport ListNotations.\nOpen Scope Z_scope.\nFrom Sekai Require Import Base.Prelude Gen.GenesisCoverage Model.Genesis Model.C12Check.\nClose Scope string_scope.\n")
